@@ -154,9 +154,20 @@ func (e *Env) CheckRange(k Call, o *ListObs, truth []string, height, count uint6
 	if sameIDs(o.IDs, want) {
 		return
 	}
-	if lo == n && len(o.IDs) > 0 {
-		c.Failf(keyFarRange, "%s: the chain has %d elements, the range starts beyond its end, yet %d elements came back (first %s)", k, n, len(o.IDs), o.IDs[0])
-		return
+	if height+count < height {
+		// the deviation tolerated as a known finding is exactly "heights wrap around 2^64"
+		var wrapped []string
+		for i := uint64(0); i < count && i < 4096; i++ {
+			if h := height + i; h >= 1 && h <= uint64(n) {
+				wrapped = append(wrapped, truth[h-1])
+			}
+		}
+		if sameIDs(o.IDs, wrapped) {
+			if c.Failf(keyFarRange, "%s: the chain has %d elements; the range runs past 2^64 and %d elements of the START of the chain came back (first %s)", k, n, len(o.IDs), o.IDs[0]) {
+				c.Class("known-far-range-hit")
+			}
+			return
+		}
 	}
 	c.Failf(keySlice, "%s: got %s, heights [%d,%d] of the %d-element truth are %s", k, show(o.IDs), lo+1, hi, n, show(want))
 }
@@ -346,6 +357,9 @@ func mAccountBlocksByHeight(e *Env) {
 	addr := e.Addr("abh.addr")
 	truth := v.L.Blocks[addr]
 	h, cnt := GenHeight(c, "abh.height", len(truth)), GenCount(c, "abh.count", len(truth))
+	if c.Weighted("abh.near64", 9, 1) == 1 {
+		h, cnt = math.MaxUint64-uint64(c.Int("abh.below", 0, 20)), uint64(c.Int("abh.cnt64", 1, 40))
+	}
 	k := Call{"ledger", v.Apis.Ledger, "GetAccountBlocksByHeight", []interface{}{addr, h, cnt}}
 	c.Note("%s on %s (chain of %d)", k, v.Name, len(truth))
 	a := e.Do(k)
@@ -460,6 +474,9 @@ func mMomentumsByHeight(e *Env) {
 	c, v := e.C, e.V
 	n := len(v.Momentums)
 	h, cnt := GenHeight(c, "mbh.height", n), GenCount(c, "mbh.count", n)
+	if c.Weighted("mbh.near64", 9, 1) == 1 {
+		h, cnt = math.MaxUint64-uint64(c.Int("mbh.below", 0, 20)), uint64(c.Int("mbh.cnt64", 1, 40))
+	}
 	detailed := c.Bool("mbh.detailed")
 	name := "GetMomentumsByHeight"
 	if detailed {
@@ -1369,5 +1386,58 @@ func TestC18Paging(t *testing.T) {
 				m.walk(e)
 			}
 		}
+	})
+}
+
+// TestC18PageCap asks the list methods for pages of a world that holds more than RpcMaxPageSize
+// projects / wrap requests / unwrap requests (the lists suspected to be served without a cap).
+func TestC18PageCap(t *testing.T) {
+	emb := embeddedLists()
+	var big []*embList
+	for i := range emb {
+		switch emb[i].name {
+		case "embedded.accelerator.getAll", "embedded.bridge.getAllWrapTokenRequests", "embedded.bridge.getAllUnsignedWrapTokenRequests",
+			"embedded.bridge.getAllWrapTokenRequestsByToAddress", "embedded.bridge.getAllWrapTokenRequestsByToAddressNetworkClassAndChainId",
+			"embedded.bridge.getAllUnwrapTokenRequests", "embedded.bridge.getAllUnwrapTokenRequestsByToAddress":
+			big = append(big, &emb[i])
+		}
+	}
+	pbt.Check(t, "C18", func(c *pbt.C) {
+		v := HugeView(t)
+		c.Class("world-huge")
+		e := &Env{C: c, V: v, ViaServerToo: c.Weighted("via-server", 4, 1) == 1}
+		m := big[c.Pick("method", len(big))]
+		c.Class("m-" + m.name)
+		prefix := m.prefix(e)
+		truth, ordered := m.truth(e, prefix)
+		n := len(truth)
+		ref := e.refOrder(m, prefix, truth, ordered)
+		var size uint32
+		switch c.Weighted("cap.size", 3, 3, 2, 1) {
+		case 0:
+			size = uint32(int(m.limit) + c.Int("cap.aroundLimit", -1, 8))
+		case 1:
+			size = uint32(clampInt(n+c.Int("cap.aroundN", -3, 3), 0, math.MaxInt32))
+		case 2:
+			size = u32Bounds[c.Pick("cap.bound", len(u32Bounds))]
+		default:
+			size = GenSize(c, "cap.gen", n, m.limit)
+		}
+		idx := uint32(0)
+		if c.Weighted("cap.index", 3, 1) == 1 {
+			idx = GenIndex(c, "cap.idx", n, size)
+		}
+		k, a := e.pageCall(m, prefix, idx, size)
+		c.Note("%s on %s (list of %d)", k, v.Name, n)
+		if n > int(m.limit) && size > m.limit && idx == 0 {
+			c.NonTrivial()
+			c.Class("asks-for-more-than-the-limit-of-a-longer-list")
+		}
+		if a.Err != "" {
+			e.ErrOK(k, a, pageErrorAllowed(size, m.limit))
+			return
+		}
+		o := e.ParseList(k, a, m.id)
+		e.CheckPage(k, o, PageSpec{Truth: ref, Ordered: true, WantCount: int64(n), Limit: m.limit, Index: idx, Size: size})
 	})
 }
